@@ -1154,7 +1154,7 @@ fn fragment_guard(g: &Global, fns: &[FnSrc], spec: &ModSpec, out: &mut String, e
 ///  * `STATIC_CODE_SIZE_LIMITS`: the same for `start_static_block`.
 fn structural_consts(fns: &[FnSrc], spec: &ModSpec, defs: &mut Vec<(String, String)>, errors: &mut Vec<String>) {
     use syn::visit::Visit;
-    struct V { fors: Vec<i128>, opt_args: Vec<i128>, tight: Vec<i128>, write_codes: usize }
+    struct V { fors: Vec<i128>, opt_args: Vec<String>, tight: Vec<i128>, write_codes: usize }
     impl<'ast> Visit<'ast> for V {
         fn visit_expr_for_loop(&mut self, f: &'ast ExprForLoop) {
             if let Expr::Range(r) = &*f.expr {
@@ -1183,8 +1183,14 @@ fn structural_consts(fns: &[FnSrc], spec: &ModSpec, defs: &mut Vec<(String, Stri
         fn visit_expr_method_call(&mut self, m: &'ast ExprMethodCall) {
             if m.method == "write_code" { self.write_codes += 1; }
             if m.method == "optimize_table" {
-                if let Some(Expr::Lit(ExprLit { lit: Lit::Int(a), .. })) = m.args.iter().nth(2) { if let Ok(n) = a.base10_parse::<i128>() { self.opt_args.push(n); } }
-                else { self.opt_args.push(-1); }
+                // the limit: an integer literal, or the name of a constant of this module (emitted as a reference to
+                // the translated constant, so the theorems still quantify over what the source says)
+                match m.args.iter().nth(2) {
+                    Some(Expr::Lit(ExprLit { lit: Lit::Int(a), .. })) => { if let Ok(n) = a.base10_parse::<i128>() { self.opt_args.push(format!("({}:Int)", n)); } else { self.opt_args.push("?".into()); } }
+                    Some(Expr::Path(pth)) if pth.path.segments.len() == 1 && pth.path.segments[0].ident.to_string().chars().all(|c| c.is_ascii_uppercase() || c.is_ascii_digit() || c == '_') =>
+                        self.opt_args.push(format!("Gen.DeflCore.{}", pth.path.segments[0].ident)),
+                    _ => self.opt_args.push("?".into()),
+                }
             }
             syn::visit::visit_expr_method_call(self, m);
         }
@@ -1215,7 +1221,7 @@ fn structural_consts(fns: &[FnSrc], spec: &ModSpec, defs: &mut Vec<(String, Stri
     }
     for (fname, cname) in [("HuffmanOxide::start_dynamic_block", "DYN_CODE_SIZE_LIMITS"), ("HuffmanOxide::start_static_block", "STATIC_CODE_SIZE_LIMITS")] {
         match get(fname) {
-            Some(v) if !v.opt_args.is_empty() && v.opt_args.iter().all(|&x| x >= 0) => defs.push((format!("Gen.DeflCore.{}", cname), format!("-- structural constant: code size limits passed to optimize_table in {} ({})\ndef Gen.DeflCore.{} : Array Int := #[{}]\n", fname, spec.path, cname, v.opt_args.iter().map(|x| format!("({}:Int)", x)).collect::<Vec<_>>().join(", ")))),
+            Some(v) if !v.opt_args.is_empty() && v.opt_args.iter().all(|x| x != "?") => defs.push((format!("Gen.DeflCore.{}", cname), format!("-- structural constant: code size limits passed to optimize_table in {} ({})\ndef Gen.DeflCore.{} : Array Int := #[{}]\n", fname, spec.path, cname, v.opt_args.join(", ")))),
             _ => errors.push(format!("{}: {}: optimize_table calls with literal limits not found", spec.path, fname)),
         }
     }
